@@ -190,7 +190,8 @@ CLAIMED.update({
              "string pools rolled over, two interleaved Lexicons) each run three times in one process with the global allocation "
              "functions replaced; runs 2 and 3 are validated by IprLedgerTrace allocation by allocation (<= 400 allocations) or "
              "by counters. IprLedgerMC is checked tight and with a forgetful owner (must violate) as a vacuity guard. ASan+LSan "
-             "runs of this recorder and of other recorders contribute their verdict as terminal events.",
+             "runs of this recorder and of other recorders contribute their verdict as terminal events, and so do runs of six recorders "
+             "(plain build) under valgrind memcheck (reads of storage no live object has written, leaks).",
         ref="DESIGN.md §3 C19", tech="TLA+ IprLedger: allocation-ledger trace validation (operator new/delete replaced) + sanitizer verdicts as terminal events",
         note="Trusted: TLC, spec/IprLedger*.tla, harness/ledger.cxx (ledger of operator new/delete), ASan/LSan for dead-storage "
              "accesses. Histories are fixed scenarios plus seeds, not enumerated."),
